@@ -386,12 +386,7 @@ def run_merge(case, col):
         inputs.update(t.inputs())
         assume += t.assumptions()
     allst = [(k, i) for k, t in enumerate(Ts) for i in range(t.n)]
-    # distinct stamps across trajectories (ties leave the order open)
-    for a in range(len(allst)):
-        for b in range(a + 1, len(allst)):
-            (k1, i1), (k2, i2) = allst[a], allst[b]
-            if k1 != k2:
-                assume.append(Ts[k1].t[i1] != Ts[k2].t[i2])
+    # equal stamps across trajectories are allowed: the clauses below leave the order among ties open
 
     def fn():
         objs = [t.build("quat") for t in Ts]
